@@ -93,7 +93,12 @@ func newFaultServer(dir string, writable bool) *faultServer {
 		panic(err)
 	}
 	fs := &faultServer{dir: dir, store: ls, counts: map[string]int{}, failAt: map[string]map[int]bool{}, perKey: map[string]int{}}
-	next := desync.NewHTTPHandler(ls, writable, false, desync.Converters{desync.Compressor{}}, "")
+	fs.start(desync.NewHTTPHandler(ls, writable, false, desync.Converters{desync.Compressor{}}, ""))
+	return fs
+}
+
+// start serves next behind the fault script.
+func (fs *faultServer) start(next http.Handler) {
 	h := http.HandlerFunc(func(w http.ResponseWriter, r *http.Request) {
 		kind := map[string]string{"HEAD": "has", "PUT": "store", "GET": "get"}[r.Method]
 		fs.mu.Lock()
@@ -121,7 +126,6 @@ func newFaultServer(dir string, writable bool) *faultServer {
 	}
 	fs.srv = &httptest.Server{Listener: l, Config: &http.Server{Handler: h}}
 	fs.srv.Start()
-	return fs
 }
 
 func (fs *faultServer) fail(kind string, k int) {
